@@ -736,9 +736,12 @@ func (sm *Subscriptions) WhenArgs(
 	argNames := jw(slices.Collect(maps.Keys(args)), ",")
 	sm.log(LogOps, "[whenArgs:new] %s (%s)", state, argNames)
 
-	// try to reuse an existing channel
+	// try to reuse an existing channel (same args only: the binding of a
+	// superset would not match events that match these)
 	for _, binding := range sm.whenArgs[handler] {
-		if compareArgs(binding.args, args) && binding.ctx == ctx {
+		if len(binding.args) == len(args) && compareArgs(binding.args, args) &&
+			binding.ctx == ctx {
+
 			return binding.ch
 		}
 	}
